@@ -419,7 +419,7 @@ const (
 // do applies one operation to the model and to every driver and compares.
 // The returned result is the model's.
 func (w *world) do(op model.Op) (model.Result, int, *failure) {
-	if ids := guardOp(op, w.m); len(ids) > 0 {
+	if ids := guardOp(op, w.m, w.cfg.V2); len(ids) > 0 {
 		for _, id := range ids {
 			stats.For(w.prop).Exclude(id)
 		}
